@@ -105,3 +105,19 @@ Print Assumptions C17_pasted_process_command.
 
 Example C17_pasted_ex := ex_reset_list.
 Example C17_pasted_hyps := ex_reset_list_hyps.
+
+(* the fuel hypothesis made concrete (Proofs/CommandFuel.v): a line needs at most one step per word, so any typed line of
+   fewer than 200 words (in particular: shorter than 200 characters) is within the fuel the model's step function uses;
+   the bound is tight (CommandFuel.ex_words_tight) *)
+From WD Require Import CommandFuel.
+Theorem C17_pasted_command_words : forall fuel on c,
+  no_color (no_color c) = no_color c -> (count_words c < fuel)%nat ->
+  resolve_cmd fuel on (no_color c) = resolve_cmd fuel on c.
+Proof. exact pasted_command_words. Qed.
+Print Assumptions C17_pasted_command_words.
+
+Theorem C17_pasted_process_command_200 : forall s c,
+  no_color (no_color c) = no_color c -> (List.length c < command_fuel)%nat ->
+  process_command command_fuel s (no_color c) = process_command command_fuel s c.
+Proof. exact pasted_process_command_200. Qed.
+Print Assumptions C17_pasted_process_command_200.
